@@ -1,7 +1,9 @@
 package props
 
 import (
+	"go/types"
 	"golang.org/x/tools/go/ssa"
+	"sort"
 
 	"utilcheck/flow"
 )
@@ -32,6 +34,59 @@ func ruleWrap(e *Env, ruleName string, pkgs ...string) {
 			c.Out[i].Rule = ruleName
 		}
 	})
+	// an error type of the package that carries another error (a field or an embedded value of type error) must expose
+	// it through Unwrap() error — otherwise errors.Is / errors.As cannot see a documented sentinel stored in it
+	for _, pkg := range pkgs {
+		sp := e.P.ByName[pkg]
+		if sp == nil {
+			continue
+		}
+		errT := types.Universe.Lookup("error").Type()
+		var names []string
+		for n := range sp.Members {
+			names = append(names, n)
+		}
+		sort.Strings(names)
+		for _, n := range names {
+			tm, ok := sp.Members[n].(*ssa.Type)
+			if !ok {
+				continue
+			}
+			named, ok := tm.Type().(*types.Named)
+			if !ok {
+				continue
+			}
+			st, ok := named.Underlying().(*types.Struct)
+			if !ok {
+				continue
+			}
+			isErr := types.Implements(named, errT.Underlying().(*types.Interface)) || types.Implements(types.NewPointer(named), errT.Underlying().(*types.Interface))
+			carries := false
+			for i := 0; i < st.NumFields(); i++ {
+				if types.Identical(st.Field(i).Type(), errT) {
+					carries = true
+				}
+			}
+			if !isErr || !carries {
+				continue
+			}
+			hasUnwrap := false
+			for _, recv := range []types.Type{named, types.NewPointer(named)} {
+				ms := types.NewMethodSet(recv)
+				if sel := ms.Lookup(sp.Pkg, "Unwrap"); sel != nil {
+					if sig, ok := sel.Type().(*types.Signature); ok && sig.Params().Len() == 0 && sig.Results().Len() == 1 && types.Identical(sig.Results().At(0).Type(), errT) {
+						hasUnwrap = true
+					}
+				}
+			}
+			site := pkg + "." + n
+			if hasUnwrap {
+				e.S.Ok(ruleName, site, "Unwrap", "error type carrying an error exposes it through Unwrap() error", "")
+			} else {
+				e.S.Bad(ruleName, site, "Unwrap", "error type "+n+" stores another error but has no Unwrap() error method: errors.Is cannot find a documented sentinel wrapped in it", "", "")
+			}
+		}
+	}
 }
 
 // ruleErrZero instantiates S-ERRZERO for the given packages under ruleName.
